@@ -470,7 +470,10 @@ contract("HpcSubmitter.run", file=F,
          raises={
              # C11: a failing status query happens before anything is handed over or written; the next round starts from the same state
              "ExecutionError": {"ensures": ["ghost.runs == old(ghost.runs) and ghost.file_writes == old(ghost.file_writes) and ghost.fs == old(ghost.fs)",
-                                            "self._batch_index == old(self._batch_index)"], "frame": False},
+                                            "self._batch_index == old(self._batch_index)",
+                                            # ... and no result was consumed: the next round sees the same completions (C11)
+                                            "ghost.collected == old(ghost.collected) and ghost.collected_failed == old(ghost.collected_failed)",
+                                            "unchanged(Job.state) and unchanged(Job.blocked_by)"], "frame": False},
              # C11: once a round handed a batch over, every exception leaves the marker in place (later rounds refuse)
              "Exception": {"ensures": ["ghost.runs == old(ghost.runs) or MARKER(self) in ghost.fs or persisted()"], "frame": False},
          },
